@@ -116,6 +116,47 @@ def stage_found_before(chk, pid, cfg, keys, build_universe, make_x, what, tid=80
     return {"k": -1, "reached": 0, "found_now": True, "obs": obs, "errors": run.errors}
 
 
+def stage_stale_snapshot(chk, pid, cfg, keys, build_universe):
+    """The miner's snapshot is k = 0, 1, 2, 3 blocks behind when its result arrives (the network thread adopted k blocks of a peer in between):
+    the found block -- valid, on a parent the node stores -- still becomes part of the chain state the node serves, is stored and is broadcast
+    (C12, last sentence; Handover: A_C12_AdoptedAtHandOver holds whatever the network thread did before M5).  Judged by TLC (TraceFacts)."""
+    from checks.store import cb as cbd, blk as blkd
+    facts = []
+    for k in range(0, 4):
+        w, g, blocks, txs = build_universe(cfg, keys)
+        run = hd.HandoverRun(w, g, [blocks[1]], blocks[2], 0, 820000 + k)
+        try:
+            Mi = run.thr["miner"]
+            Mi.call_stops = False
+            Mi.submit(run._request_until_found)
+            if Mi.exc is not None or not run.found:
+                run.errors.append("miner request: %r" % Mi.exc)
+            parent_abs, h = 1, 2
+            for j in range(k):                                   # k blocks of a peer extend the head meanwhile
+                d = blkd(40 + j, parent_abs, h, [cbd(40 + j, h, cfg.subsidy(h), k=2)])
+                d["ts"] = 20 + h
+                run.run.deliver_block("p", w.concretise(d))
+                parent_abs, h = 40 + j, h + 1
+            if run.found:
+                Mi.submit(run._job_found())
+                Mi.wait_idle(20)
+            obs = run.finish()
+        finally:
+            run.close()
+        what = "result of the miner arrives when its snapshot is %d blocks behind" % k
+        for clause, ok in (("C12:found_block_not_part_of_the_served_chain_state", obs["b_served"]), ("C12:found_block_not_written_to_store", obs["b_on_disk"]),
+                           ("C12:found_block_not_broadcast", obs["b_bcast"]), ("C12:handling_a_found_block_raised", not run.errors)):
+            facts.append({"clause": clause, "holds": bool(ok), "what": what + (" %s" % run.errors if run.errors else "")})
+        chk.case(("stale_snapshot", k), nontrivial=k > 0)
+    v, r = tracecheck.run("TraceFacts", facts, {}, ids=[1], workers=1, timeout=300)
+    chk.traces_validated += 1
+    chk.states += r.distinct
+    for (line, clause) in tlc.tagged(r, "FINDING"):
+        if clause.startswith(pid + ":"):
+            chk.violation(clause, {"schedule": facts[line - 1]["what"]}, {"clause": clause})
+    return 0
+
+
 def stage_adversarial(chk, quick, rng, pid, cfg, keys, build_universe, make_x, what):
     """Model-free: a relayed block X that fails full validation, with one mining round of the node's own miner placed at every call-level
     stop of the delivery (snapshot there, found block handled there or after the delivery).  P: X is neither in the served chain state
